@@ -1100,7 +1100,12 @@ def rule_tagspec_syntax(chk, prog, tier):
             CASES.append((kw, ['I', after], rec))            # an incomplete enum type cannot be named (6.7.2.3p3)
             CASES.append((kw, body + [after], True))
             CASES.append((kw, ['I'] + body + [after], True))
-    TK = {';': 'TSEMICOLON', '*': 'TMUL', ')': 'TRPAREN', ',': 'TCOMMA', '{': 'TLBRACE', '}': 'TRBRACE', 'I': 'TIDENT', 'A': 'TIDENT', 'M': 'TINT'}
+    # `enum tag :` starts an enum type specifier only if a type follows (C23 6.7.3.3); before anything else the colon belongs to what surrounds the specifier: a bit-field width, a generic association
+    CASES.append(('TENUM', ['D', ':', 'N', ';'], 1))         # D: the tag of a complete enum
+    CASES.append(('TENUM', ['D', ':', 'N', ')'], 1))
+    CASES.append(('TENUM', ['D', ':', 'U', ';'], 3))         # U: `unsigned` - a redeclaration with the underlying type
+    CASES.append(('TENUM', [':', 'N', ';'], False))
+    TK = {';': 'TSEMICOLON', '*': 'TMUL', ')': 'TRPAREN', ',': 'TCOMMA', '{': 'TLBRACE', '}': 'TRBRACE', 'I': 'TIDENT', 'A': 'TIDENT', 'M': 'TINT', 'D': 'TIDENT', ':': 'TCOLON', 'N': 'TNUMBER', 'U': 'TUNSIGNED'}
     for kw, rest, ok in CASES:
         def runner(it):
             w = World(prog, it=it, target='x86_64-sysv')
@@ -1110,7 +1115,7 @@ def rule_tagspec_syntax(chk, prog, tier):
             def load():
                 c = cur()
                 tokobj.f[('kind',)] = ev(prog, c if c.startswith('T') and len(c) > 1 else TK.get(c, 'TEOF'))
-                tokobj.f[('lit',)] = Ptr(it.mkstr(list(b'tag' if c == 'I' else b'A'), 'id'), (0,)) if c in ('I', 'A') else None
+                tokobj.f[('lit',)] = Ptr(it.mkstr(list(b'tag' if c == 'I' else b'done' if c == 'D' else b'A'), 'id'), (0,)) if c in ('I', 'A', 'D') else None
                 tokobj.f[('loc', 'file')] = None; tokobj.f[('loc', 'line')] = 1; tokobj.f[('loc', 'col')] = 1
             def nxt(i2, a, e): st['i'] += 1; load(); return None
             def consume(i2, a, e):
@@ -1127,6 +1132,14 @@ def rule_tagspec_syntax(chk, prog, tier):
                 t.obj.f[('u', 'structunion', 'members')] = Ptr(m, ()); t.obj.f[('size',)] = 4; t.obj.f[('align',)] = 4
                 return None
             tags = {}
+            de = w.mkenum(w.t('uint')); tags['done'] = de
+            def declspecs(i2, a, e):
+                t = None
+                if cur() == 'U': t = w.t('uint'); nxt(i2, a, e)
+                return StructVal({('type',): t, ('qual',): 0, ('expr',): None})
+            def unget(i2, a, e):
+                st['i'] -= 1; load(); return None
+            it.models.update({'declspecs': declspecs, 'unget': unget})
             def gettag(i2, a, e):
                 return tags.get(bytes(read_cstr(i2, a[1])).decode())
             def puttag(i2, a, e):
@@ -1140,10 +1153,12 @@ def rule_tagspec_syntax(chk, prog, tier):
             it.call(fn, [Ptr(Obj('scope', 'heap'), ())])
             return st['i']
         runs = explore(prog, runner, {}, max_runs=4, on_unsupported='keep')
-        key = 'tagspec:%s %s' % (kw[1:].lower(), ' '.join('tag' if x == 'I' else 'int m;' if x == 'M' else x for x in rest))
+        key = 'tagspec:%s %s' % (kw[1:].lower(), ' '.join('tag' if x == 'I' else 'int m;' if x == 'M' else 'complete-tag' if x == 'D' else '3' if x == 'N' else 'unsigned' if x == 'U' else x for x in rest))
         if len(runs) != 1 or runs[0].outcome not in ('return', 'terminal:error'):
             raise AnalysisBroken('%s: %s' % (key, [(x.outcome, x.detail) for x in runs][:2]))
-        if ok:
+        if ok is not True and ok is not False:
+            r.instance(runs[0].outcome == 'return' and runs[0].value == 1 + ok, key, 'decl.c:%s' % fn.get('line'), 'the specifier consists of the keyword and %d more token(s); cproc: %s %s' % (ok, runs[0].outcome, runs[0].value - 1 if runs[0].outcome == 'return' else runs[0].detail))
+        elif ok:
             r.instance(runs[0].outcome == 'return' and runs[0].value == len(rest), key, 'decl.c:%s' % fn.get('line'), 'valid specifier of %d tokens; cproc: %s %s' % (len(rest), runs[0].outcome, runs[0].value if runs[0].outcome == 'return' else runs[0].detail))
         else:
             r.instance(runs[0].outcome == 'terminal:error', key, 'decl.c:%s' % fn.get('line'), 'must be diagnosed; cproc accepts it as a specifier of %s tokens' % (runs[0].value if runs[0].outcome == 'return' else '?'))
